@@ -511,7 +511,11 @@ where
     match r, okC with
     | none, false => if u'.isSome then "RECORD-MISMATCH the record-level parser succeeds" else "ok"
     | some r, true =>
-      if some r != parseRawRep (after.splitOn " ") then s!"MISMATCH model={rawRepStr r}"
+      if some r != parseRawRep (after.splitOn " ") then
+        let equiv := match parseRawRep (after.splitOn " "), u' with
+          | some a, some u => a.fill == (layout u).fill
+          | _, _ => false
+        (if equiv then "MISMATCH-EQUIV" else "MISMATCH") ++ s!" model={rawRepStr r}"
       else match u' with
         | some u => if r.fill != (layout u).fill then s!"RECORD-MISMATCH layout-of-record={rawRepStr (layout u)}" else "ok"
         | none => "RECORD-MISMATCH the record-level parser fails"
@@ -537,12 +541,15 @@ def setrepStep (idna : Idna) (line : String) : String :=
         let us := parseUnits units
         let (r, okM) := setRep idna s e us b
         let (u', okR) := setValid idna s e us u
-        if r != a || okM != okC then s!"MISMATCH model={rawRepStr r} ret={b01 okM}"
+        if r != a || okM != okC then
+          -- the C++ state may still be a representation of the right record (another pattern of never-started parts):
+          -- then only the correspondence is broken, not the property
+          (if a.fill == (layout u').fill && okR == okC then "MISMATCH-EQUIV" else "MISMATCH") ++ s!" model={rawRepStr r} ret={b01 okM}"
         else if r.fill != (layout u').fill || okR != okC then s!"RECORD-MISMATCH layout-of-record={rawRepStr (layout u')} ret={b01 okR}"
         else "ok"
       else if kind == "update" then
         let r := updateRepSer b (unhexBytes units)   -- = updateRep on the list (C05f_update_ser)
-        if r != a then s!"MISMATCH model={rawRepStr r}" else "ok"
+        if r != a then (if r.fill == a.fill then "MISMATCH-EQUIV" else "MISMATCH") ++ s!" model={rawRepStr r}" else "ok"
       else if kind == "none" then
         if b != a then s!"MISMATCH model={rawRepStr b}" else "ok"
       else "BADOP"
